@@ -168,6 +168,10 @@ type session struct {
 
 	seenProcess, seenAdd int32
 	seenTx               int
+
+	wanted        []byte // the requested block (payload of its block message)
+	blockCalls    int32
+	seenBlockCall int32
 }
 
 type sessDiv struct {
@@ -296,7 +300,7 @@ func (s *session) fabHeader(prev bitcoin.Hash32) *wire.BlockHeader {
 }
 
 func (s *session) payloadSize() int {
-	sizes := []int{0, 1, 37, 1000, 65536}
+	sizes := []int{0, 1, 37, 1000, 1023, 1024, 1025, 2048, 4096, 65536}
 	if s.big {
 		sizes = append(sizes, 4<<20)
 	}
@@ -361,6 +365,11 @@ func (s *session) build(class string) []byte {
 		return wireMessage(s.newTx())
 	case "block":
 		return rawMessage("block", s.blockBytes())
+	case "blockWanted":
+		if s.wanted == nil {
+			return rawMessage("block", s.blockBytes()) // nothing requested: any block
+		}
+		return rawMessage("block", s.wanted)
 	case "extTx":
 		var b bytes.Buffer
 		s.newTx().Serialize(&b)
@@ -458,13 +467,31 @@ func (s *session) run(behIdx int) []sessDiv {
 		out := map[string]int{}
 		nonce := s.rng.Uint64()
 		var data []byte
-		if st.Msg == "ping" {
-			data = wireMessage(wire.NewMsgPing(nonce))
+		sent := true
+		if st.Msg == "reqblock" {
+			// the node manager asks this node for a block
+			s.wanted = s.blockBytes()
+			var hdr wire.BlockHeader
+			hdr.Deserialize(bytes.NewReader(s.wanted[:80]))
+			handler := func(ctx context.Context, h *wire.BlockHeader, n uint64, ch <-chan *wire.MsgTx) error {
+				atomic.AddInt32(&s.blockCalls, 1)
+				for range ch {
+				}
+				return nil
+			}
+			if err := s.node.RequestBlock(s.ctx, *hdr.BlockHash(), handler, func(context.Context) {}); err != nil {
+				fail(step, "C14", "RequestBlock on a ready node failed: "+err.Error())
+			}
+			s.trace = append(s.trace, "reqblock")
 		} else {
-			data = s.build(st.Msg)
+			if st.Msg == "ping" {
+				data = wireMessage(wire.NewMsgPing(nonce))
+			} else {
+				data = s.build(st.Msg)
+			}
+			s.trace = append(s.trace, fmt.Sprintf("%s(%d bytes)", st.Msg, len(data)))
+			sent = s.write(data, 2*time.Second)
 		}
-		s.trace = append(s.trace, fmt.Sprintf("%s(%d bytes)", st.Msg, len(data)))
-		sent := s.write(data, 2*time.Second)
 		pong, eof := false, false
 		if sent {
 			if st.Msg == "ping" {
@@ -525,11 +552,20 @@ func (s *session) run(behIdx int) []sessDiv {
 		if adds > 0 {
 			gotSinks["peers.Add"] = true
 		}
-		if out["getdata"] > 0 {
+		if out["getdata"] > 0 && st.Msg == "inv" {
 			gotSinks["AddTxID"] = true
 		}
 		if txs > 0 {
 			gotSinks["AddTx"] = true
+		}
+		if wantSinks["BlockHandler"] {
+			for t := 0; t < 300 && atomic.LoadInt32(&s.blockCalls) == s.seenBlockCall; t++ {
+				time.Sleep(time.Millisecond)
+			}
+		}
+		if bc := atomic.LoadInt32(&s.blockCalls); bc != s.seenBlockCall {
+			gotSinks["BlockHandler"] = true
+			s.seenBlockCall = bc
 		}
 		phase := "C14"
 		if !wasReady {
